@@ -484,6 +484,19 @@ def _next(ex, args, f):
     if it.kind == "chars":
         if len(s) == 0:
             return NONE
+        b0 = z3.simplify(s.byte(0))
+        if z3.is_bv_value(b0) and b0.as_long() >= 0x80:
+            # a literal (concrete) non-ASCII character: decode the UTF-8 sequence; symbolic text stays within the ASCII bound (A2)
+            lead = b0.as_long()
+            n = 2 if lead >> 5 == 0b110 else 3 if lead >> 4 == 0b1110 else 4 if lead >> 3 == 0b11110 else 0
+            cont = [z3.simplify(s.byte(i)) for i in range(1, n)] if 0 < n <= len(s) else []
+            if not n or len(cont) != n - 1 or not all(z3.is_bv_value(c) and c.as_long() >> 6 == 0b10 for c in cont):
+                raise Unsupported("chars() over bytes that are not UTF-8")
+            cp = lead & (0xff >> (n + 1))
+            for c in cont:
+                cp = (cp << 6) | (c.as_long() & 0x3f)
+            it.s = s.sub(n)
+            return some(Int(cp, "char"))
         it.s = s.sub(1)
         return some(ch(s.byte(0)))
     if it.kind == "bytes":
